@@ -80,3 +80,56 @@ package dynbt
 //@   ensures Sfail(st) ==> err != nil                                                [@errprop]
 //@   ensures Spos(st) >= p0                                                          [@consume]
 //@   modifies stream(r)                                                              [@frame]
+
+// ---------------------------------------------------------------- encoder side (C02)
+//
+// Scalars, strings and typed arrays are re-encoded as exactly the payload bytes that were
+// decoded (v.data); together with the decoder contract (v.data == the payload bytes of the wire
+// form) this is the byte-exact round trip of these carriers.
+
+//@ func writeInt16(w, n) (err)
+//@   let wk = sink(w)
+//@   let l0 = old(Wlen(wk))
+//@   ensures all(k, 0, l0, Wout(wk, k) == old(Wout(wk, k)))                         [@frame]
+//@   ensures err == nil ==> Wlen(wk) == l0 + 2 && be16(Woutrow(wk), l0) == uint16(n) [@value @count]
+//@   ensures Wfail(wk) ==> err != nil                                                [@errprop]
+//@   ensures !Wfail(wk) ==> err == nil                                               [@errprop]
+//@   ensures Wlen(wk) >= l0 && Wlen(wk) <= l0 + 2                                    [@count]
+//@   modifies sink(w)                                                                [@frame]
+
+//@ func writeInt32(w, n) (err)
+//@   let wk = sink(w)
+//@   let l0 = old(Wlen(wk))
+//@   ensures all(k, 0, l0, Wout(wk, k) == old(Wout(wk, k)))                         [@frame]
+//@   ensures err == nil ==> Wlen(wk) == l0 + 4 && be32(Woutrow(wk), l0) == uint32(n) [@value @count]
+//@   ensures Wfail(wk) ==> err != nil                                                [@errprop]
+//@   ensures !Wfail(wk) ==> err == nil                                               [@errprop]
+//@   ensures Wlen(wk) >= l0 && Wlen(wk) <= l0 + 4                                    [@count]
+//@   modifies sink(w)                                                                [@frame]
+
+//@ func writeTag(w, tagType, tagName) (err)
+//@   let wk = sink(w)
+//@   let l0 = old(Wlen(wk))
+//@   requires len(tagName) < 32768
+//@   ensures all(k, 0, l0, Wout(wk, k) == old(Wout(wk, k)))                         [@frame]
+//@   ensures err == nil ==> Wlen(wk) == l0 + 3 + len(tagName) && Wout(wk, l0) == tagType && int(be16(Woutrow(wk), l0 + 1)) == len(tagName)   [@value @count]
+//@   ensures err == nil ==> all(k, 0, len(tagName), Wout(wk, l0 + 3 + k) == tagName[k])   [@value]
+//@   ensures Wfail(wk) ==> err != nil                                                [@errprop]
+//@   ensures Wlen(wk) >= l0                                                          [@count]
+//@   modifies sink(w)                                                                [@frame]
+
+//@ define dscalar(t) = (1 <= int(t) && int(t) <= 8) || t == 11 || t == 12
+
+//@ func (*Value).MarshalNBT(v; w) (err)
+//@   let wk = sink(w)
+//@   let l0 = old(Wlen(wk))
+//@   split v.tag in 0..12 else
+//@   requires v.tag != 9 && v.tag != 10
+//@   loop 0: unroll 0
+//@   loop 1: unroll 0
+//@   ensures all(k, 0, l0, Wout(wk, k) == old(Wout(wk, k)))                         [@frame]
+//@   ensures err == nil && dscalar(v.tag) ==> Wlen(wk) == l0 + len(v.data) && all(k, 0, len(v.data), Wout(wk, l0 + k) == v.data[k])   [@value @count]
+//@   ensures err == nil ==> int(v.tag) <= 12                                         [@reject]
+//@   ensures Wfail(wk) ==> err != nil                                                [@errprop]
+//@   ensures Wlen(wk) >= l0                                                          [@count]
+//@   modifies sink(w)                                                                [@frame]
